@@ -54,10 +54,10 @@ Definition is_perm_of_range (p : list nat) (n : nat) : bool :=
 Definition layer_kind (l : layer) (k : kind) : option kind :=
   match l with
   | LStrided n tc | LMorton n tc _ =>
-      if (k_scalar k || (k_n k =? 1)%nat) && negb (is_float tc) && (0 <? n)%nat
+      if (k_n k =? 1)%nat && negb (is_float tc) && (0 <? n)%nat
       then Some {| k_n := n; k_tc := tc; k_m := k_m k; k_tv := k_tv k; k_ref := k_ref k; k_scalar := false |} else None
   | LHilbert tc =>
-      if (k_scalar k || (k_n k =? 1)%nat) && negb (is_float tc)
+      if (k_n k =? 1)%nat && negb (is_float tc)
       then Some {| k_n := 2; k_tc := tc; k_m := k_m k; k_tv := k_tv k; k_ref := k_ref k; k_scalar := false |} else None
   | LClamp => if k_scalar k then None else Some k
   | LBackup => if k_scalar k then None else Some {| k_n := k_n k; k_tc := k_tc k; k_m := k_m k; k_tv := k_tv k; k_ref := false; k_scalar := false |}
